@@ -870,10 +870,6 @@ namespace ip {
 			}
 			case aux::packet::type_t::ack:
 			{
-				// if the socket just became writeable, we need to notify the
-				// client. First we want to know whether it was not writeable.
-				const bool was_writeable = m_bytes_in_flight + m_mss > m_cwnd;
-
 				auto it = m_outstanding_packet_sizes.find(p.seq_nr);
 				assert(it != m_outstanding_packet_sizes.end());
 				const int acked_bytes = it->second;
@@ -891,9 +887,13 @@ namespace ip {
 
 				// TODO: implement slow-start
 
+				// if there is room in the congestion window now, a write that is
+				// waiting for it can go ahead. The window may have been opened by
+				// this ACK or earlier, by a drop report; either way this is the
+				// last event a blocked writer can count on
 				const bool is_writeable = m_bytes_in_flight + m_mss <= m_cwnd;
 
-				if (!was_writeable && is_writeable)
+				if (is_writeable)
 					maybe_wakeup_writer();
 
 				return;
